@@ -84,6 +84,33 @@ Definition plain_types (p : prog) : bool :=
 (* the entry definition takes integers (the arguments of asm_main) *)
 Definition entry_int (p : prog) : bool := match pdefs p with d :: _ => ctx_int (dctx d) | [] => true end.
 
+(* ---------- literals are 64-bit values (i64 in the Rust AST; Z in the model) ---------- *)
+Definition lit_i64 (z : Z) : bool := (min_int <=? z) && (z <=? max_int).
+Fixpoint stmt_lits (s : stmt) : bool :=
+  match s with
+  | Literal n _ next => lit_i64 n && stmt_lits next
+  | Substitute _ next | Op _ _ _ _ next | PrintI64 _ _ next | Let _ _ _ _ next => stmt_lits next
+  | IfC _ _ _ t e => stmt_lits t && stmt_lits e
+  | Call _ _ | Exit _ | Invoke _ _ _ _ => true
+  | Switch _ _ cls =>
+      (fix go (cls : list (ident * ctx * stmt)) : bool :=
+         match cls with [] => true | (_, _, b) :: r => stmt_lits b && go r end) cls
+  | Create _ _ _ cls next =>
+      (fix go (cls : list (ident * ctx * stmt)) : bool :=
+         match cls with [] => true | (_, _, b) :: r => stmt_lits b && go r end) cls && stmt_lits next
+  end.
+Definition clauses_lits (cls : list clause) : bool := forallb (fun c => stmt_lits (cl_body c)) cls.
+Lemma stmt_lits_create v t env cls next :
+  stmt_lits (Create v t env cls next) = true -> clauses_lits cls = true /\ stmt_lits next = true.
+Proof.
+  cbn [stmt_lits]. intros H. apply andb_true_iff in H as [G N]. split; [|exact N].
+  clear N. induction cls as [|[[x cx] b] r IH]; [reflexivity|]. cbn [clauses_lits forallb cl_body snd].
+  apply andb_true_iff in G as [G1 G2]. rewrite G1. exact (IH G2).
+Qed.
+(* every literal of the program, and every argument, fits 64 bits *)
+Definition lits_i64 (p : prog) : bool := forallb (fun d => stmt_lits (dbody d)) (pdefs p).
+Definition args_i64 (args : list Z) : bool := forallb lit_i64 args.
+
 (* ---------- observations ---------- *)
 Definition good (o : obs) : Prop := (exists z, snd o = OExit z) \/ (exists w, snd o = OUndef w).
 Lemma not_good_stuck out w : ~ good (finish out (OStuck w)).
